@@ -88,7 +88,7 @@ fn parent(args: &Args) {
             assumptions: vec![
                 "field names colliding with the formatter's own keys (timestamp, level, fields, target, filename, line_number, span, spans, threadName, threadId; \
                  name/field/field_error inside span objects; log.* names) or with each other after r#-stripping are not generated".into(),
-                "a leading r# on a key is accepted stripped or not; bytes are accepted as a number array or as their Debug text; a re-recorded field may show any of its recorded values; \
+                "a leading r# on a key is accepted stripped or not; bytes are accepted as a number array or as their Debug text; a re-recorded field must show its latest value unless the span has escaped field names (F8) or the key exists in both r# forms; \
                  for explicitly parented events and span-lifecycle records the span list may be either the entered scope or the parent's scope".into(),
                 "non-finite floats are expected as null (serde_json's documented behaviour); errors as their Display (or Debug) text".into(),
                 "the scoped default is installed per case on the test thread; no global default is ever set".into(),
